@@ -769,8 +769,22 @@ func (f *Frame) builtin(name string, args []*SVal, c *ssa.CallCommon, rt types.T
 		return args[0]
 	case "String": // unsafe.String
 		g.usedStr = true
-		g.note("%s: unsafe.String abstracted", f.fn.String())
-		return scalar(rt, KString, g.fresh("ustr", SStr))
+		g.note("%s: unsafe.String abstracted (arbitrary string of the given length)", f.fn.String())
+		r := scalar(rt, KString, g.fresh("ustr", SStr))
+		g.assume(f.curReach, sEq(sApp("strlen", r.Term), idx64(args[1])))
+		return r
+	case "StringData", "SliceData":
+		g.note("%s: unsafe.%s abstracted (opaque pointer)", f.fn.String(), name)
+		return &SVal{T: rt, K: KPtr, Term: g.fresh("udata", SBV64), Prov: &Prov{Kind: -1}}
+	case "Slice": // unsafe.Slice(ptr, n)
+		g.note("%s: unsafe.Slice abstracted (fresh backing array of the given length)", f.fn.String())
+		n := idx64(args[1])
+		f.oblige("panic", sApp("bvsge", n, bv64(0)), pos, "unsafe.Slice: negative length")
+		base := g.newRef(f.curState, f.curReach, "uslice")
+		return &SVal{T: rt, K: KSlice, Sub: []*SVal{mkInt(base), mkInt(bv64(0)), mkInt(n), mkInt(n)}}
+	case "Add":
+		g.note("%s: unsafe.Add abstracted", f.fn.String())
+		return &SVal{T: rt, K: KUnsafePtr, Term: g.fresh("uadd", SBV64)}
 	}
 	panic(unsupported("builtin " + name))
 }
